@@ -374,9 +374,9 @@ def derive_reference(fmt, recs, rng):
     return out
 
 
-def print_file(fmt, recs, broken=False):
+def print_file(fmt, recs, broken=False, bom=False):
     """text and, per record, what the oracle needs"""
-    text = fmt.header
+    text = ("\ufeff" if bom else "") + fmt.header
     info = []
     for r in recs:
         start = len(text)
@@ -902,7 +902,8 @@ def write_file(path, text, rng):
         f.write(data)
 
 
-def gen_file_case(rng, root, sub, extra="random", ref_at=None, lookup_finds=True, fmts=None):
+def gen_file_case(rng, root, sub, extra="random", ref_at=None, lookup_finds=True, fmts=None,
+                  bom=False):
     """writes one file and maybe a reference version; returns the case description.
     ref_at: where the reference lookup will look (None: next to the file's directory);
     lookup_finds=False: the lookup never returns a reference"""
@@ -911,7 +912,7 @@ def gen_file_case(rng, root, sub, extra="random", ref_at=None, lookup_finds=True
         extra = rng.choice(fmt.extras)
     recs = gen_records(fmt, rng, extra)
     broken = fmt.android and rng.random() < 0.08
-    text, info = print_file(fmt, recs, broken)
+    text, info = print_file(fmt, recs, broken, bom)
     path = os.path.join(root, sub, fmt.filename(rng))
     write_file(path, text, rng)
     mode = rng.choice(["none", "file", "file", "file", "file", "missing", "dir", "same"])
@@ -930,6 +931,9 @@ def gen_file_case(rng, root, sub, extra="random", ref_at=None, lookup_finds=True
     elif not ref_at:
         ref_path = None
     exp = expected_results(fmt, recs, text, info, ref_recs if lookup_finds else None, broken)
+    if text == "\ufeff":
+        # a DTD that is only a byte order mark is one empty Junk behind the mark
+        exp = [(1, 2, "error", 'Unparsed content "" from line 1 column 2 to line 1 column 2')]
     return {"fmt": fmt.name, "path": path, "ref": ref_path, "extra": extra, "text": text,
             "ref_text": ref_text, "mode": mode, "expected": exp, "broken": broken}
 
@@ -1410,7 +1414,8 @@ def suite_project(chk, model, tmp):
 
 
 # -------------------------------------- .properties from the TEXT alone ---
-TEXT_FORMATS = [("properties", 0, "LINT-properties-text"), ("ini", 1, "LINT-ini-text")]
+TEXT_FORMATS = [("properties", 0, "LINT-properties-text"), ("ini", 1, "LINT-ini-text"),
+                ("dtd", 2, "LINT-dtd-text")]
 
 
 def suite_props_text(chk, model, tmp):
@@ -1431,10 +1436,12 @@ def suite_text(chk, model, tmp, fmt_name, code, suite):
     def read(path):
         with open(path, encoding="utf-8", errors="replace", newline=None) as f:
             return f.read()
-    for i in range(chk.n(500, 6000)):
-        c = gen_file_case(rng, tmp, "t%d" % i, fmts=[FMT_BY_NAME[fmt_name]], extra=None)
+    for i in range(chk.n(350, 4000)):
+        c = gen_file_case(rng, tmp, "t%d" % i, fmts=[FMT_BY_NAME[fmt_name]],
+                          extra="random" if fmt_name == "dtd" else None,
+                          bom=fmt_name == "dtd" and rng.random() < 0.2)
         j0 = parser.Junk.junkid
-        got = run_impl(lambda: impl_dicts(L10nLinter().lint_file(c["path"], c["ref"], None)))
+        got = run_impl(lambda: impl_dicts(L10nLinter().lint_file(c["path"], c["ref"], c["extra"])))
         check_expected(chk, c, got, tmp)
         if got[0] == 0:
             got = [0, [r[1:] for r in got[1]]]
@@ -1443,7 +1450,10 @@ def suite_text(chk, model, tmp, fmt_name, code, suite):
         p = parser.getParser(c["path"])
         p.readUnicode(text)
         current = p.parse()
-        checker = checks.getChecker(File(c["path"], c["path"], locale=REFERENCE_LOCALE), extra_tests=None)
+        checker = checks.getChecker(File(c["path"], c["path"], locale=REFERENCE_LOCALE),
+                                    extra_tests=c["extra"])
+        if checker.needs_reference:
+            checker.set_reference(current)
         msgs, results, junk_vals = [], [], {}
         for e in current:
             if isinstance(e, parser.Junk):
@@ -1452,11 +1462,23 @@ def suite_text(chk, model, tmp, fmt_name, code, suite):
             res = []
             for tp, pos, msg, cat in checker.check(e, e):
                 msgs.append(msg)
-                kind = 0 if isinstance(pos, checks.EntityPos) else 1
-                res.append([LEVEL[tp], kind, int(pos), 0, len(msgs) - 1, 0])
+                if isinstance(pos, tuple):
+                    res.append([LEVEL[tp], 2, pos[0], pos[1], len(msgs) - 1, 0])
+                else:
+                    kind = 0 if isinstance(pos, checks.EntityPos) else 1
+                    res.append([LEVEL[tp], kind, int(pos), 0, len(msgs) - 1, 0])
             if res:
                 results.append([e.span[0], res])
-        reqs.append((5, [j0, canon(text), opt(ref_text, canon), [results], code]))
+        table = []
+        if fmt_name == "dtd":
+            # html.unescape is a parameter of the model: its values on the raw values at hand
+            import html
+            raws = {e.raw_val for e in current if not isinstance(e, parser.Junk)}
+            if ref_text is not None:
+                p.readUnicode(ref_text)
+                raws |= {e.raw_val for e in p.parse() if not isinstance(e, parser.Junk)}
+            table = [[canon(r), canon(html.unescape(r))] for r in sorted(raws)]
+        reqs.append((5, [j0, canon(text), opt(ref_text, canon), [results], code, table]))
 
         def dec(out, msgs=msgs, junk_vals=junk_vals):
             if out[0] != 0:
